@@ -1953,27 +1953,27 @@ def run(ctx: Ctx):
     stream_small(ctx, batch)
     stream_table(ctx, batch)
     stream_entity_table(ctx)
-    stream_configs(ctx, batch, ctx.n(400, 5000))
+    stream_configs(ctx, batch, ctx.n(330, 5000))
     stream_bytes(ctx, ctx.n(250, 3000))
-    stream_formatter_args(ctx, batch, ctx.n(400, 4000))
+    stream_formatter_args(ctx, batch, ctx.n(330, 4000))
     stream_string_output_ready(ctx, batch, ctx.n(250, 2500))
     stream_doctype_ids(ctx, batch, ctx.n(300, 3000))
     # (i) parsed documents
-    n = ctx.n(1500, 18000)
+    n = ctx.n(1300, 18000)
     for i in range(n):
         r = ctx.rng("parsed", i)
         check_tree(ctx, batch, {"kind": "parse", "markup": gen_markup(r)}, "parsed", True, r=r)
-    n = ctx.n(600, 6000)
+    n = ctx.n(500, 6000)
     for i in range(n):
         r = ctx.rng("malformed", i)
         check_tree(ctx, batch, {"kind": "parse", "markup": gen_markup(r, malformed=True)}, "malformed", True, r=r)
     # (ii) API construction / edit histories, representable content
-    n = ctx.n(1900, 24000)
+    n = ctx.n(1600, 24000)
     for i in range(n):
         r = ctx.rng("api", i)
         check_tree(ctx, batch, gen_api_recipe(r, 0.0), "api", False, r=r)
     # (iii) content outside Representable: rendered (pure correspondence), re-parse outcome recorded
-    n = ctx.n(800, 8000)
+    n = ctx.n(650, 8000)
     for i in range(n):
         r = ctx.rng("hostile", i)
         check_tree(ctx, batch, gen_api_recipe(r, 0.25), "hostile", False, r=r)
